@@ -160,6 +160,20 @@ fn roundtrip<T: serde::Serialize + serde::de::DeserializeOwned + PartialEq + std
                 o.fail(format!("C16/{}/value-changed", what), format!("{} round {}: {:?} became {:?}", mode, round, v, back), "equal value");
                 return;
             }
+            if round == 0 {
+                use in_toto::interchange::{DataInterchange, Json, JsonPretty};
+                for (name, r) in [
+                    ("Json::from_reader", Json::from_reader::<_, T>(std::io::Cursor::new(last_text.as_bytes())).map_err(|e| e.to_string())),
+                    ("JsonPretty::from_reader", JsonPretty::from_reader::<_, T>(last_text.as_bytes()).map_err(|e| e.to_string())),
+                    ("Json::from_slice", Json::from_slice::<T>(last_text.as_bytes()).map_err(|e| e.to_string())),
+                ] {
+                    match r {
+                        Ok(b) if &b == v => {}
+                        Ok(b) => o.fail(format!("C16/{}/{}-value-changed", what, name), format!("{}: {:?} became {:?}", mode, v, b), "equal value"),
+                        Err(e) => o.fail(format!("C16/{}/{}-own-output-does-not-parse", what, name), format!("{} ({} bytes): {}", mode, last_text.len(), e), "parses back"),
+                    }
+                }
+            }
             let again = match mode {
                 "compact" => serde_json::to_string(&back),
                 "pretty" => serde_json::to_string_pretty(&back),
@@ -188,7 +202,7 @@ impl Property for C16 {
          thresholds 0..u32::MAX, empty and non-empty collections, environment None/empty/entries, byproducts with every subset of the \
          optional fields plus extra fields, all key types (a third of the layouts list one RSA key under both of its signature schemes - one material, two key ids - and an ECDSA key), 1-2 digest algorithms per artifact, Unicode text everywhere, whole-second \
          expiries in years 1970-9999); independently rendered wire documents (member order, whitespace, escape spelling, optional members \
-         absent, expiry spelled in another UTC offset). Oracle: parse(ser(v)) == v for serde_json compact and pretty and for the library's own writers Json::to_writer and JsonPretty::to_writer; ser(parse(ser(v))) is \
+         absent, expiry spelled in another UTC offset). Oracle: parse(ser(v)) == v for serde_json compact and pretty and for the library's own writers Json::to_writer and JsonPretty::to_writer, parsed with serde_json and with the library's Json::from_slice, Json::from_reader and JsonPretty::from_reader (documents reach several hundred KiB through the artifact-count tail); ser(parse(ser(v))) is \
          byte-identical, repeated 8 times on freshly parsed instances (samples hash-map orders); for rendered documents that parse, every \
          member of D re-appears unchanged in ser(parse(D)) (expiry compared as an instant; defaults may be added). Non-trivial: the value \
          uses an optional/variant feature (MATCH prefix, extra byproduct field, >=2 digests, non-ASCII text, >=2 keys, environment); distinct by document."
